@@ -73,7 +73,11 @@ impl KnowledgeGraphsMetadata {
     pub fn save(&self, path: &Path) -> StorageResult<()> {
         // Ensure parent directory exists
         if let Some(parent) = path.parent() {
+            #[cfg(inputlayer_verif)]
+            crate::verif_hooks::fs_point("kgsmeta.save.mkdir:pre");
             fs::create_dir_all(parent)?;
+            #[cfg(inputlayer_verif)]
+            crate::verif_hooks::fs_point("kgsmeta.save.mkdir:post");
         }
 
         // Use thread ID + timestamp to create a unique temp file name,
@@ -93,18 +97,34 @@ impl KnowledgeGraphsMetadata {
         let tmp_path = path.with_file_name(tmp_name);
 
         // Write to temp file
+        #[cfg(inputlayer_verif)]
+        crate::verif_hooks::fs_point("kgsmeta.save.tmpwrite:pre");
         let file = File::create(&tmp_path)?;
         serde_json::to_writer_pretty(&file, self)?;
+        #[cfg(inputlayer_verif)]
+        crate::verif_hooks::fs_point("kgsmeta.save.tmpwrite:post");
         // Ensure metadata is durably written to disk
+        #[cfg(inputlayer_verif)]
+        crate::verif_hooks::fs_point("kgsmeta.save.fsync:pre");
         file.sync_all()?;
+        #[cfg(inputlayer_verif)]
+        crate::verif_hooks::fs_point("kgsmeta.save.fsync:post");
 
         // Atomic rename (POSIX guarantees atomicity)
+        #[cfg(inputlayer_verif)]
+        crate::verif_hooks::fs_point("kgsmeta.save.rename:pre");
         fs::rename(&tmp_path, path)?;
+        #[cfg(inputlayer_verif)]
+        crate::verif_hooks::fs_point("kgsmeta.save.rename:post");
 
         // Sync parent directory to ensure rename is durable
         if let Some(parent) = path.parent() {
             if let Ok(dir) = File::open(parent) {
+                #[cfg(inputlayer_verif)]
+                crate::verif_hooks::fs_point("kgsmeta.save.dirsync:pre");
                 let _ = dir.sync_all();
+                #[cfg(inputlayer_verif)]
+                crate::verif_hooks::fs_point("kgsmeta.save.dirsync:post");
             }
         }
 
@@ -149,7 +169,11 @@ impl KnowledgeGraphMetadata {
     pub fn save(&self, path: &Path) -> StorageResult<()> {
         // Ensure parent directory exists
         if let Some(parent) = path.parent() {
+            #[cfg(inputlayer_verif)]
+            crate::verif_hooks::fs_point("kgmeta.save.mkdir:pre");
             fs::create_dir_all(parent)?;
+            #[cfg(inputlayer_verif)]
+            crate::verif_hooks::fs_point("kgmeta.save.mkdir:post");
         }
 
         let unique = format!(
@@ -167,18 +191,34 @@ impl KnowledgeGraphMetadata {
         let tmp_path = path.with_file_name(tmp_name);
 
         // Write to temp file
+        #[cfg(inputlayer_verif)]
+        crate::verif_hooks::fs_point("kgmeta.save.tmpwrite:pre");
         let file = File::create(&tmp_path)?;
         serde_json::to_writer_pretty(&file, self)?;
+        #[cfg(inputlayer_verif)]
+        crate::verif_hooks::fs_point("kgmeta.save.tmpwrite:post");
         // Ensure data is durably written to disk before rename
+        #[cfg(inputlayer_verif)]
+        crate::verif_hooks::fs_point("kgmeta.save.fsync:pre");
         file.sync_all()?;
+        #[cfg(inputlayer_verif)]
+        crate::verif_hooks::fs_point("kgmeta.save.fsync:post");
 
         // Atomic rename (POSIX guarantees atomicity)
+        #[cfg(inputlayer_verif)]
+        crate::verif_hooks::fs_point("kgmeta.save.rename:pre");
         fs::rename(&tmp_path, path)?;
+        #[cfg(inputlayer_verif)]
+        crate::verif_hooks::fs_point("kgmeta.save.rename:post");
 
         // Sync parent directory to ensure rename is durable
         if let Some(parent) = path.parent() {
             if let Ok(dir) = File::open(parent) {
+                #[cfg(inputlayer_verif)]
+                crate::verif_hooks::fs_point("kgmeta.save.dirsync:pre");
                 let _ = dir.sync_all();
+                #[cfg(inputlayer_verif)]
+                crate::verif_hooks::fs_point("kgmeta.save.dirsync:post");
             }
         }
 
